@@ -63,6 +63,10 @@ pub struct Run {
     pub clock_reads: u64,
     pub sleepers: Vec<(u64, shuttle::thread::Thread)>,
     pub sleeps: u64,
+    /// fault: nobody reads the process's stdout (a full pipe): writers to stream 0 block
+    pub stdout_stalled: bool,
+    pub stdout_waiters: Vec<shuttle::thread::Thread>,
+    pub stdout_blocked_writes: u64,
     pub stdin: VecDeque<Option<String>>,
     pub stdin_waiter: Option<shuttle::thread::Thread>,
     pub stdin_requests: usize,
@@ -99,6 +103,9 @@ impl Run {
             clock_reads: 0,
             sleepers: Vec::new(),
             sleeps: 0,
+            stdout_stalled: false,
+            stdout_waiters: Vec::new(),
+            stdout_blocked_writes: 0,
             stdin: VecDeque::new(),
             stdin_waiter: None,
             stdin_requests: 0,
@@ -188,7 +195,47 @@ fn me() -> usize {
 
 pub fn out(stream: u8, line: String) {
     let task = me();
+    if stream == 0 {
+        // a stalled stdout blocks the writer until the world lets the reader drain it
+        let mut counted = false;
+        loop {
+            let stalled = with(|r| {
+                if r.stdout_stalled {
+                    if !counted {
+                        r.stdout_blocked_writes += 1;
+                    }
+                    r.stdout_waiters.push(shuttle::thread::current());
+                    true
+                } else {
+                    false
+                }
+            });
+            if !stalled {
+                break;
+            }
+            counted = true;
+            shuttle::thread::park();
+        }
+    }
     with(|r| r.log.push(Event::Out { task, stream, line }));
+}
+
+/// World side: stdout stops being read.
+pub fn stall_stdout() {
+    with(|r| r.stdout_stalled = true);
+}
+
+/// World side: stdout is read again. Returns true if a writer was waiting.
+pub fn resume_stdout() -> bool {
+    let waiters: Vec<shuttle::thread::Thread> = with(|r| {
+        r.stdout_stalled = false;
+        r.stdout_waiters.drain(..).collect()
+    });
+    let any = !waiters.is_empty();
+    for t in waiters {
+        t.unpark();
+    }
+    any
 }
 
 pub fn note(text: impl Into<String>) {
